@@ -884,6 +884,9 @@ func (m *Machine) chanRecv(fr *frame, ch Value, commaOk bool) Value {
 	if m.runPending(fr) {
 		return m.chanRecv(fr, ch, commaOk)
 	}
+	if m.waitFor(func() bool { return len(c.Buf) > 0 || c.Closed }, "receive on "+c.Name+" at "+fr.where()) {
+		return m.chanRecv(fr, ch, commaOk)
+	}
 	panic(pathEnd{"blocked", "receive on empty channel " + c.Name + " at " + fr.where()})
 }
 
@@ -895,6 +898,8 @@ type pendingGo struct {
 func (m *Machine) spawn(fr *frame, fn Value, args []Value) {
 	m.trace = append(m.trace, Event{Name: "go", Args: []Value{fn}})
 	switch m.goMode {
+	case "threads":
+		m.spawnThread(fn, args)
 	case "skip":
 	case "defer":
 		m.pending = append(m.pending, pendingGo{fn, args})
@@ -957,6 +962,23 @@ func (m *Machine) selectOp(fr *frame, instr *ssa.Select) Value {
 				return r
 			}
 			if m.runPending(fr) {
+				continue
+			}
+			if m.threadsOn() {
+				var chans []*Chan
+				for _, st := range instr.States {
+					if c, _ := fr.get(st.Chan).(*Chan); c != nil && st.Dir == types.RecvOnly {
+						chans = append(chans, c)
+					}
+				}
+				m.waitFor(func() bool {
+					for _, c := range chans {
+						if len(c.Buf) > 0 || c.Closed {
+							return true
+						}
+					}
+					return false
+				}, "select at "+fr.where())
 				continue
 			}
 			panic(pathEnd{"blocked", "select with no ready case at " + fr.where()})
